@@ -346,6 +346,14 @@ fn mkf(x: f64, y: f64) -> List[List[f64]] { [[x], [y, x]] }
 fn eqf(a: List[List[f64]], b: List[List[f64]]) -> bool { a == b }
 fn hasf(a: List[List[f64]], x: f64) -> bool { a.contains([x]) }
 fn idxf(a: List[List[f64]], y: f64, x: f64) -> u64? { a.index([y, x]) }
+fn stale(v: u64) -> List[u64?] { let x = Some(v); x = None; [x] }
+fn fresh() -> List[u64?] { let n: u64? = None; [n] }
+fn opt_eq(v: u64) -> bool { stale(v) == fresh() }
+fn opt_eq_rev(v: u64) -> bool { fresh() == stale(v) }
+fn opt_ne(v: u64) -> bool { stale(v) != fresh() }
+fn opt_has(v: u64) -> bool { let n: u64? = None; stale(v).contains(n) }
+fn opt_idx(v: u64) -> u64? { let n: u64? = None; stale(v).index(n) }
+fn opt_some(v: u64) -> bool { let a = [Some(v), None]; let b = [Some(v), None]; a == b && a.contains(Some(v)) }
 ";
     let mut pkg = match FileTree::test_file("nested.roto", src, 0).compile(&rt) {
         Ok(p) => p,
@@ -396,6 +404,25 @@ fn idxf(a: List[List[f64]], y: f64, x: f64) -> u64? { a.index([y, x]) }
         let got = hasf.call(mkf.call(x, y), item);
         let want = vf(x, y).contains(&vec![item]);
         out.push((name, got == want, format!("{got} vs Vec<Vec<f64>> {want}")));
+    }
+    // a Copy element whose representation has bytes that are not part of its value: an
+    // `u64?` that was `Some(v)` and is `None` now keeps `v` in its payload bytes; it is
+    // equal to a fresh `None` (as `Vec<Option<u64>>` says), its bytes are not
+    {
+        let want = vec![None::<u64>] == vec![None::<u64>];
+        for name in ["opt_eq", "opt_eq_rev"] {
+            let f: F<fn(u64) -> bool> = pkg.get_function(name).unwrap();
+            let got = f.call(5) && f.call(0xFFFF_FFFF_FFFF);
+            out.push((if name == "opt_eq" { "script-option-stale-payload-eq" } else { "script-option-stale-payload-eq-rev" }, got == want, format!("{got} vs Vec<Option<u64>> {want}")));
+        }
+        let f: F<fn(u64) -> bool> = pkg.get_function("opt_ne").unwrap();
+        out.push(("script-option-stale-payload-ne", !f.call(5), "!= of equal lists".into()));
+        let f: F<fn(u64) -> bool> = pkg.get_function("opt_has").unwrap();
+        out.push(("script-option-stale-payload-contains", f.call(7) == vec![None::<u64>].contains(&None), "contains(None)".into()));
+        let f: F<fn(u64) -> Option<u64>> = pkg.get_function("opt_idx").unwrap();
+        out.push(("script-option-stale-payload-index", f.call(7) == Some(0), format!("{:?}", f.call(7))));
+        let f: F<fn(u64) -> bool> = pkg.get_function("opt_some").unwrap();
+        out.push(("script-option-some-none", f.call(3), "[Some(v), None] == [Some(v), None]".into()));
     }
     {
         let got = idxf.call(mkf.call(-0.0, 1.5), 1.5, 0.0);
